@@ -109,14 +109,15 @@ Section Noise.
         let '(s1, ev) := handle_error_and_close s (EUnknownProto p) in (s1, ev, None)
       else
         match take_until_nul rest with
-        | Some name =>
-          if negb (utf8_ok name) then (s, [], Some RUnicode)
-          else match expected_name with
-               | Some en =>
-                 if bytes_eqb en name then (set_state s NHandshake, [], None)
-                 else let '(s1, ev) := handle_error_and_close s (EBadName name) in (s1, ev, None)
-               | None => (set_state s NHandshake, [], None)
-               end
+        | Some name0 =>
+          (* bytes.decode(errors="replace"): an undecodable name is presented with U+FFFD (abstracted to one marker element) *)
+          let name := if utf8_ok name0 then name0 else [65533] in
+          match expected_name with
+          | Some en =>
+            if bytes_eqb en name then (set_state s NHandshake, [], None)
+            else let '(s1, ev) := handle_error_and_close s (EBadName name) in (s1, ev, None)
+          | None => (set_state s NHandshake, [], None)
+          end
         | None => (set_state s NHandshake, [], None)
         end
     end.
@@ -129,10 +130,10 @@ Section Noise.
     | [] => let '(s1, ev) := handle_error_and_close s EEmptyHandshake in (s1, ev, None)
     | b :: rest =>
       if negb (b =? 0) then
-        if negb (utf8_ok rest) then (s, [], Some RUnicode)
-        else if bytes_eqb rest MAC_FAILURE
+        let text := if utf8_ok rest then rest else [65533] in
+        if bytes_eqb text MAC_FAILURE
         then let '(s1, ev) := handle_error_and_close s EInvalidKey in (s1, ev, None)
-        else let '(s1, ev) := handle_error_and_close s (EHandshakeFail rest) in (s1, ev, None)
+        else let '(s1, ev) := handle_error_and_close s (EHandshakeFail text) in (s1, ev, None)
       else if hs_read rest then
         let s1 := set_state s NReady in
         (* ciphers start at nonce 0; ready_future.set_result(None) *)
